@@ -9,6 +9,8 @@ VERIF = os.path.dirname(os.path.dirname(os.path.abspath(__file__)))
 E1NOTE = 'Trusted: CPython determinism under pinned TZ/hash seed/virtual clock; the reference model and query evaluator (tfmc/refmodel.py, tfmc/qast.py); claims are for the explored alphabets and bounds (N stored points, depth D, reported closure) only.'
 E3NOTE = 'Trusted: CPython determinism; the reference function in the check module; the claim is for the enumerated finite universe only (no extrapolation to all strings/floats/terms).'
 
+FNOTE = 'Trusted: the crash/fault model (process death between raw I/O calls; single failing call; no power loss, no short writes) and that the seam sees every I/O call of tinyflux.storages (liveness check + real-kill conformance); CPython buffered/text layers are the real ones.'
+
 CHECKS = {
     "C01": (
         "histmc", "model_checking",
@@ -27,6 +29,12 @@ CHECKS = {
         "explicit-state BFS over histories; every update form x selector x scope executed as a probe transition on a fresh replica, contents compared position by position with the reference model",
         "At every reachable state every update form (static and callable; time/measurement/tags/fields/unset_*/combinations) x 13+ selectors x measurement scope, update_all and handle variants run on the real object; stored contents afterwards are compared position by position and the return value with the number of changed points.",
         E1NOTE, "4/C03",
+    ),
+    "C04": (
+        "histmc", "model_checking",
+        "one explicit-state BFS per CSV configuration; after every operation and after closing a replica of every state an independent byte-level reader decodes the file and is compared with the reference model",
+        "18 (quick) / 56 (thorough) CSVStorage configurations (flush_on_insert x encoding x csv dialect; compact prefixes mixed per insert), histories with early-stopping reads, rewrites and reopen over delimiter/quote/CR/LF/non-ASCII strings; the file alone (independent reader, and a fresh TinyFlux) must hold the reference contents in insertion order.",
+        E1NOTE, "4/C04",
     ),
     "C05": (
         "univ", "exploration",
@@ -64,11 +72,35 @@ CHECKS = {
         "Every faulting call (non-Point inserts, non-Point at each position of insert_multiple, update callables raising at invocation k or returning invalid values, with a half-applied preceding attribute, invalid argument sets, handle variants) at every reachable state: contents must equal the reference (unchanged / plus prefix), a valid index must equal a rebuild, and states reached through faults get all further operations and the read/getter batteries.",
         E1NOTE, "4/C11",
     ),
+    "C12": (
+        "iofault", "fault_enumeration",
+        "exhaustive crash-point enumeration: every raw I/O step boundary of every operation of every BFS-explored history is a crash image recovered by a fresh TinyFlux; real-kill conformance",
+        "All histories (BFS, depth<=4/5) over the crash alphabet on CSV; the seam numbers every raw call (open, write, truncate, fsync, close, replace, copy steps); the file bytes at every boundary are recovered by a fresh TinyFlux and must equal the contents before or after the operation (insert_multiple: prefix); 200+ boundaries re-validated by os._exit in a child process.",
+        FNOTE, "4/C12",
+    ),
+    "C13": (
+        "iofault", "fault_enumeration",
+        "exhaustive single-fault injection: an OSError at every raw I/O step (before; after for fsync/close/flush) of every operation of every BFS-explored state, each followed by every continuation of a menu",
+        "For every (state, operation) of a BFS (depth<=3/4) and every recorded raw step an OSError is injected on a fresh replay; the error must reach the caller, every later read (index-served and scan-served, after a further insert, after reopen) must agree with the object's own storage or raise, and the closed file must decode to the old or new contents.",
+        FNOTE, "4/C13",
+    ),
     "C14": (
         "univ", "exploration",
         "exhaustive matrix entry point x slot x wrong value x static/callable x selector x configuration x pre-state on the real API",
         "Complete matrix (exhaustive:true) of API entry points x slots x wrongly-typed values, static and via callables, on 4 configurations and pre-state sizes 0-3 (index-assisted and scan branch): must raise ValueError/TypeError, leave contents unchanged, and all() (also of a reopened CSV copy) must return well-typed values only.",
         E3NOTE, "4/C14",
+    ),
+    "C15": (
+        "histmc", "model_checking",
+        "explicit-state BFS over histories on CSV; at every state ~600 read / no-op / faulting / access-mode probe transitions with byte-for-byte and directory-listing oracles",
+        "At every reachable state every read, getter, iteration, reindex, reference-no-op removal/update, faulting call and one operation per class under access modes r/a/a+/w/w+/r+ is executed: file bytes unchanged for reads/no-ops/forbidden writes (which must raise OSError); temp-dir and database-dir listings identical before/after every operation, returned or raised.",
+        E1NOTE, "4/C15",
+    ),
+    "C16": (
+        "iofault", "model_checking",
+        "explicit-state BFS over histories with the raw-I/O seam as recorder at every insert transition; size ladder",
+        "Every insert/insert_multiple transition of every reachable state (4 CSV configurations, after early-stopping reads and rewrites): no read step, no truncate below the old size, old bytes a prefix of the new, written bytes equal appended bytes, one constant step profile per configuration (per point); plus pre-filled databases of 10..10000 rows showing the same profile.",
+        FNOTE, "4/C16",
     ),
     "C17": (
         "univ", "model_checking",
